@@ -197,7 +197,7 @@ KillEntRecW(x, e) ==
     ELSE LET c == ChildOf(e) IN KillEntW(IF c # 0 THEN KillEntRecW(x, c) ELSE x, e)
 
 GcW(x) ==
-    LET res == GcLoop(x, KillEntRecW)
+    LET res == IF "gc_flat" \in Mutants THEN GcLoop(x, KillEntW) ELSE GcLoop(x, KillEntRecW)
         skip == "gc_skip" \in Mutants
     IN IF skip THEN [w |-> x, out |-> << [t |-> "gc", d |-> <<>>, closed |-> 1] >>]
        ELSE [w |-> res.w, out |-> << [t |-> "gc", d |-> res.d, closed |-> 1] >> \o res.drops]
@@ -307,7 +307,10 @@ PollW(x) ==
             IN [w |-> [acc.w EXCEPT !.reg = SelectSeq(@, LAMBDA y : ~(y.kd = "desp" /\ y.e = ent))],
                 out |-> Append(acc.out, [t |-> "sched", trig |-> "desp", ty |-> 0, ent |-> ent, data |-> 0, reactors |-> MapSeq(ls, LAMBDA y : y.s)]),
                 q |-> acc.q \o MapSeq(ls, LAMBDA y : RxCmd("desp", y.s, ent, "", 0, 0, y.h))]
-        a2 == FoldSeq(despstep, [a1 EXCEPT !.w = [a1.w EXCEPT !.despChan = <<>>]], a1.w.despChan)
+        \* mutant: the drain stops at the first despawned entity that has no reactors (the rest stays on the channel)
+        firstUnwatched == FirstIdx(a1.w.despChan, LAMBDA ent : ~\E y \in Range(a1.w.reg) : y.kd = "desp" /\ y.e = ent)
+        cut == IF "poll_stop_unwatched" \in Mutants /\ firstUnwatched # 0 THEN firstUnwatched ELSE Len(a1.w.despChan)
+        a2 == FoldSeq(despstep, [a1 EXCEPT !.w = [a1.w EXCEPT !.despChan = SubSeq(@, cut + 1, Len(@))]], SubSeq(a1.w.despChan, 1, cut))
     IN [w |-> a2.w, out |-> << [t |-> "poll"] >> \o a2.out, q |-> a2.q]
 
 QFrame(q, post) == [f |-> "q", q |-> q, post |-> post]
@@ -453,7 +456,12 @@ BufEntry(fr) == [k |-> fr.k, s |-> fr.s, kind |-> fr.kind]
 AbortPath(x, kind, s, pre) ==
     LET x1 == IF "abort_no_setup" \in Mutants THEN x ELSE SetupW(x, kind, s)
         cl == IF "abort_no_cleanup" \in Mutants THEN [w |-> x1, out |-> <<>>] ELSE CleanupW(x1, kind)
-    IN GcPoll(cl.w, pre \o cl.out)
+    IN IF "abort_poll_first" \in Mutants
+       THEN \* mutant: the poll runs before the collection, so what the collection despawns is found by nobody in this tree
+            LET p == PollW(cl.w)
+                g == GcW(p.w)
+            IN [w |-> PushF(g.w, QFrame(p.q, << [t |-> "pollend"] >>)), out |-> pre \o cl.out \o p.out \o g.out]
+       ELSE GcPoll(cl.w, pre \o cl.out)
 
 REnter(x, fr) ==
     (* :80-84 *)
@@ -507,7 +515,10 @@ RReplay(x, fr) ==
              THEN LET js == { j \in DOMAIN x.buffered : x.buffered[j].s = fr.s } IN IF js = {} THEN 0 ELSE CHOOSE j \in js : \A j2 \in js : j >= j2
              ELSE FirstIdx(x.buffered, LAMBDA b : b.s = fr.s)
         stop == "replay_once" \in Mutants /\ fr.started
-    IN IF i = 0 \/ stop
+        \* mutant: deferred commands of a system that is gone are dropped silently (no abort path: nothing is released)
+        skipdead == "replay_skip_dead" \in Mutants /\ i # 0 /\ fr.s \notin x.alive
+    IN IF skipdead THEN [w |-> [x EXCEPT !.buffered = RemoveAt(@, i)], out |-> <<>>] ELSE
+       IF i = 0 \/ stop
        THEN [w |-> SetTopF(x, [fr EXCEPT !.pc = "final"]), out |-> <<>>]
        ELSE LET b == x.buffered[i]
                 nf == [f |-> "r", k |-> b.k, s |-> b.s, kind |-> b.kind, idx |-> 0, pc |-> "enter", r |-> 0, ops |-> <<>>, started |-> FALSE, nt |-> 0, t2 |-> 0]
